@@ -1024,6 +1024,18 @@ def m_map_remove(interp, path, args, ret_ty, callee):
     return outs
 
 
+@model(r"^new::<.*>$|^(index_map_new|index_set_new|hash_map_new)(::<.*>)?$", "empty map (repo alias of IndexMap::new)")
+def m_map_new(interp, path, args, ret_ty, callee):
+    if args:
+        raise Refuse("new::<..> with arguments")
+    return StructV("SymMap<empty>", [])
+
+
+@model(r"^Vec::<.*>::new$", "empty vector")
+def m_vec_new(interp, path, args, ret_ty, callee):
+    return StructV(ret_ty or "Vec<?>", [])
+
+
 # ---------------------------------------------------------------- std blanket conversions
 @model(r"^<([A-Z]\w*) as TryFrom<(\w+)>>::try_from$",
        "std blanket `impl<T, U: Into<T>> TryFrom<U> for T` (used only when /repo defines no TryFrom<U> for T): "
